@@ -19,9 +19,13 @@ def child_table_attr(ctx, an: Anchors) -> tuple:
     addc = comp.methods.get("add_component")
     if addc is None:
         raise AnalysisError("anchor-missing Component.add_component")
+    from .tables import expand_alias
+
     for n, m in ctx.a.func_mutations(addc):
-        if m.kind == "store" and m.depth_key and len(m.path) == 2 and m.path[0] == "self":
-            return comp, addc, m.path[1], m
+        if m.kind == "store" and m.depth_key:
+            for path in expand_alias(addc, m.path):
+                if len(path) == 2 and path[0] == "self":
+                    return comp, addc, path[1], m
     raise AnalysisError("anchor-missing hard-coded child table written by add_component")
 
 
@@ -268,7 +272,9 @@ def run(ctx) -> None:
     acfg = a.cfg(addc)
     store_node = acfg.nodes_containing(addc_store.node)
     raises = [n for n in acfg.live_nodes() if n.kind == "stmt" and isinstance(n.ast, ast.Raise)]
-    dup = any(isinstance(t.ast, ast.Compare) and isinstance(t.ast.ops[0], ast.In) and table_attr in ast.unparse(t.ast) for t in acfg.live_nodes() if t.kind == "test")
+    from .common import def_use_closure
+
+    dup = any(isinstance(t.ast, ast.Compare) and isinstance(t.ast.ops[0], ast.In) and (table_attr in ast.unparse(t.ast) or f"self.{table_attr}" in def_use_closure(addc, t.ast.comparators[0])) and any(isinstance(acfg.nodes[d].ast, ast.Raise) for d, lab in t.succ if lab == "t") for t in acfg.live_nodes() if t.kind == "test")
     rep.check("C14.R6", dup, addc, addc.node, "a duplicate alias is rejected", "a duplicate alias silently replaces the earlier child")
     started_flag = [t for t in acfg.live_nodes() if t.kind == "test" and self_attr(t.ast) is not None and "start" in self_attr(t.ast)]
     rep.check("C14.R6", bool(started_flag) and bool(store_node) and acfg.dominates(started_flag[0].id, store_node[0].id), addc, addc.node, "add_component after start_component is rejected", "children can still be added after the component was started")
